@@ -140,7 +140,7 @@ func PrefixLists(rng *hutil.Rng, tier string) [][]string {
 	}
 	nrand := 1
 	if tier != "quick" {
-		nrand = 12
+		nrand = 8
 		lists = append(lists, []string{"authz_test", "authz", "authz-extra", ""}, []string{"authz", "authz_test"}, []string{"authz/sub", "authz/sub/deep.rego", "authz"})
 	}
 	for i := 0; i < nrand; i++ {
